@@ -7,6 +7,14 @@ Python ints 0/1 stand for the constants everywhere outside this module (containe
 import random
 import z3
 
+SERIAL = [0]            # creation stamps of mutable stand-in objects (aliasing guard of runtime.merge)
+
+
+def next_serial():
+    SERIAL[0] += 1
+    return SERIAL[0]
+
+
 SIGW = 256
 _SIGMASK = (1 << SIGW) - 1
 
